@@ -92,7 +92,9 @@ Definition chart_rel (dc : dchart) (c : smchart) : Prop :=
   header_match 0 dc c = true
   /\ (forall kl, In kl (chart_objs c) -> Permutation (snd kl) (dnotes_of (fst kl) (d_notes dc)))
   /\ (forall x, In x script -> exists b, In b (c_bpms c) /\ fst (fst b) == time_of init script (bs_snap x))
-  /\ (forall kl, In kl (chart_objs c) -> forall x y, In x (snd kl) -> In y (snd kl) -> cmp_ok note4_lt x y).
+  /\ (forall kl, In kl (chart_objs c) -> forall x y, In x (snd kl) -> In y (snd kl) -> cmp_ok note4_lt x y)
+  /\ (forallb (fun x => Qeq_bool (s_b (bs_snap x)) 0) script = true ->
+      Forall2 (fun (b : Q * Q * Q) x => fst (fst b) == time_of init script (bs_snap x) /\ snd (fst b) = bs_bpm x /\ snd b = 4) (c_bpms c) script).
 
 Theorem read_chart_denotes tok it dc : notes_tok_rel tok it -> denote_chart (snd it) time = Some dc ->
   Forall (fun n => (n mod 4 = 0)%Z) (d_rows dc) ->
@@ -113,10 +115,10 @@ Proof.
                  \/ map measure_rows (split_on 44 l) = map rowsD (match data_d with [] => [] | _ :: _ => split_on 44 data_d end)).
   { destruct data_d as [|x dd] eqn:Ed; [left; split; [reflexivity|exact DR]|right; exact DR]. }
   destruct (read_notes_denotes tbl types Htbl Hgrid pairs init Hadj Hg48 Hpos Hfirst l _ keysZ op notes ns
-              (ref_keys_bound _ _ RK) Rows DM FO (Forall_rev' _ _ F4)) as (n & RN & NR & TR & NC).
+              (ref_keys_bound _ _ RK) Rows DM FO (Forall_rev' _ _ F4)) as (n & RN & NR & TR & NC & TL).
   eexists. split.
   - unfold read_chart. rewrite ST. cbn [removelast last nth_error]. rewrite PM, PR. fold bcss in RN. change (ref_conf tbl types) with cf in RN. rewrite RN. reflexivity.
-  - unfold chart_rel. cbn [d_notes c_bpms]. split; [|split; [|split]].
+  - unfold chart_rel. cbn [d_notes c_bpms]. split; [|split; [|split; [|split]]].
     + unfold header_match. cbn [d_type d_desc d_diff d_meter d_radar c_type c_desc c_diff c_meter c_radar].
       rewrite !text_eqb_refl, Z.eqb_refl, list_close_refl. reflexivity.
     + destruct NR as (N1 & N2 & N3 & N4 & N5 & N6 & N7). unfold chart_objs.
@@ -124,6 +126,7 @@ Proof.
     + exact TR.
     + unfold chart_objs. cbn [c_hits c_holds c_rolls c_mines c_lifts c_fakes c_keys].
       intros kl Hkl. apply NC. destruct Hkl as [<-|[<-|[<-|[<-|[<-|[<-|[<-|[]]]]]]]]; cbn [snd In]; tauto.
+    + exact TL.
 Qed.
 
 Theorem read_charts_denote toks its cs : Forall2 notes_tok_rel toks its ->
@@ -150,8 +153,17 @@ Definition file_rel (d : dfile) (s : smset) : Prop :=
     /\ (forall kl, In kl (chart_objs c) -> forall x y, In x (snd kl) -> In y (snd kl) -> cmp_ok note4_lt x y))
   (d_charts d) (s_maps s).
 
-Theorem sm_read_denotes txt : c02_domb txt = true ->
-  exists d s, sm_denote txt = Some d /\ sm_read cf current txt = Some s /\ file_rel d s /\ s_offset s = Some (d_beat0 d).
+Definition tempo_exact (d : dfile) (s : smset) : Prop :=
+  Forall (fun c => Forall2 (fun (b tp : Q * Q * Q) => fst (fst b) == snd tp /\ snd (fst b) = snd (fst tp) /\ snd b = 4) (c_bpms c) (d_tempo d)) (s_maps s).
+
+Lemma mult4_beat x : is_mult4 x = true -> Qeq_bool (s_b (snap_of_beat x)) 0 = true.
+Proof.
+  unfold is_mult4. intro H. apply Qeq_bool_iff in H. apply Qeq_bool_iff. cbn [snap_of_beat s_b]. rewrite Qred_correct, <- H. field.
+Qed.
+
+Theorem sm_read_denotes_lines txt : c02_domb txt = true ->
+  exists d s, sm_denote txt = Some d /\ sm_read cf current txt = Some s /\ file_rel d s /\ s_offset s = Some (d_beat0 d)
+              /\ (tempo_on_lines d = true -> tempo_exact d s).
 Proof.
   unfold c02_domb. destruct (sm_denote txt) as [d|] eqn:SD; [|discriminate]. intro H.
   apply andb_true_iff in H. destruct H as [H HH]. apply andb_true_iff in H. destruct H as [HD HL].
@@ -217,12 +229,29 @@ Proof.
   - unfold sm_read. rewrite DP, map_app. cbn [map]. rewrite Lp1, !filter_app. cbn [filter]. change (contains (tx "#NOTES:") []) with false. cbn [negb].
     rewrite app_nil_r, read_metadata_app. fold Cn. rewrite (meta_run Pi items PR). fold fields. rewrite RF. cbn [read_metadata read_meta_token].
     rewrite Ost, Bst, Sst. change (contains (tx "#NOTES:")) with Cn. rewrite RC. reflexivity.
-  - split; [|cbn [s_offset d_beat0]; exact Ost]. unfold file_rel. cbn [d_charts s_maps d_tempo]. clear -CR. induction CR as [|dc c cs cs' (A & B & C & D) _ IH]; constructor; [|exact IH].
+  - split; [|split; [cbn [s_offset d_beat0]; exact Ost|]].
+    2:{ unfold tempo_on_lines, tempo_exact. cbn [d_tempo s_maps]. intro HL.
+        assert (HS : forallb (fun x => Qeq_bool (s_b (bs_snap x)) 0) (script_of_pairs sorted) = true).
+        { unfold script_of_pairs. apply forallb_forall. intros x Hx. apply in_map_iff in Hx. destruct Hx as (p & <- & Hp). cbn [bs_snap].
+          apply mult4_beat. rewrite forallb_forall in HL. apply (HL (fst p, snd p, beat_time init (tempo_script pairs) (fst p))).
+          apply in_map_iff. exists p. split; [reflexivity|exact Hp]. }
+        clear -CR HS. induction CR as [|dc c cs cs' (_ & _ & _ & _ & E) _ IH]; constructor; [|exact IH].
+        specialize (E HS). rewrite tempo_script_eq. fold sorted. unfold script_of_pairs in E.
+        assert (GM : forall (R : Q * Q * Q -> bcs -> Prop) (R' : Q * Q * Q -> Q * Q * Q -> Prop) (f : Q * Q -> bcs) (g : Q * Q -> Q * Q * Q) la lp,
+                  (forall a p, R a (f p) -> R' a (g p)) -> Forall2 R la (map f lp) -> Forall2 R' la (map g lp)).
+        { intros R R' f g la lp Hi. revert la. induction lp as [|p lp IHp]; intros la F0; inversion F0; subst; cbn [map]; constructor; auto. }
+        refine (GM _ _ _ _ _ _ _ E). intros a p (A & B & C). cbn [fst snd bs_snap bs_bpm] in *. split; [|split; assumption].
+        rewrite A. unfold beat_time. rewrite Qred_correct. reflexivity. }
+    unfold file_rel. cbn [d_charts s_maps d_tempo]. clear -CR. induction CR as [|dc c cs cs' (A & B & C & D & _) _ IH]; constructor; [|exact IH].
     split; [exact A|]. split; [exact B|]. split; [|exact D]. intros tp Htp. apply in_map_iff in Htp. destruct Htp as (p & <- & Hp). cbn [snd].
     destruct (C (mkBcs (snd p) 4 (snap_of_beat (fst p)))) as (b & Hb & Eb).
     { unfold script_of_pairs. apply in_map_iff. exists p. split; [reflexivity|exact Hp]. }
     exists b. split; [exact Hb|]. rewrite Eb. cbn [bs_snap]. unfold beat_time. rewrite Qred_correct. rewrite tempo_script_eq. reflexivity.
 Qed.
+
+Theorem sm_read_denotes txt : c02_domb txt = true ->
+  exists d s, sm_denote txt = Some d /\ sm_read cf current txt = Some s /\ file_rel d s /\ s_offset s = Some (d_beat0 d).
+Proof. intro H. destruct (sm_read_denotes_lines txt H) as (d & s & A & B & C & D & _). exists d, s. auto. Qed.
 
 (* the runner's oracle on the model's result *)
 Lemma forallb2_of_Forall2 {A B} (R : A -> B -> Prop) (f : A -> B -> bool) la lb :
@@ -253,3 +282,12 @@ Theorem sm_read_spec_conf (cf : smconf) tbl types : cf = ref_conf tbl types -> t
   exists d s, sm_denote txt = Some d /\ sm_read cf current txt = Some s /\ file_rel d s /\ read_spec 0 d s = true
               /\ s_offset s = Some (d_beat0 d).
 Proof. intros -> H1 H2. exact (sm_read_spec tbl types H1 H2). Qed.
+
+(* tempo changes on measure lines: the chart's tempo list IS the file's tempo list (count, order, ms, bpm; metronome 4) *)
+Theorem sm_read_tempo_lines_conf (cf : smconf) tbl types : cf = ref_conf tbl types -> table_ok (1 # 96) tbl = true -> grid48_in_table tbl = true ->
+  forall txt, c02_domb txt = true -> sm_tempo_on_lines txt = true ->
+  exists d s, sm_denote txt = Some d /\ sm_read cf current txt = Some s /\ tempo_exact d s.
+Proof.
+  intros -> H1 H2 txt Hd HL. destruct (sm_read_denotes_lines tbl types H1 H2 txt Hd) as (d & s & A & B & _ & _ & E).
+  exists d, s. split; [exact A|]. split; [exact B|]. apply E. unfold sm_tempo_on_lines in HL. rewrite A in HL. exact HL.
+Qed.
